@@ -153,6 +153,24 @@ def check(case, ctx):
     from yv import fuzzphase
     if fuzzphase.note_stats(case, ctx):
         return
+    if case.get('expect') == 'reject':
+        # a class mapping whose root has a merge key or a collection as a key:
+        # "only string keys" - never admitted
+        spec = portfolio.MODELS[case['portfolio']]
+        m = models.build(spec)
+        ctx.count('non_string_key_in_class_mapping')
+        try:
+            v = m.load(case['text'])
+        except (yatiml.RecognitionError, yaml.YAMLError):
+            ctx.nontriv([case['portfolio'], case['text']])
+            return
+        except Exception as e:
+            ctx.count('other_exception')
+            return
+        ctx.finding('accept', 'accepted_invalid:non_string_key',
+                    'a class mapping with a merge key / collection key loaded as %s\n  text: %r\n  model: %s'
+                    % (canon(v), case['text'], spec))
+        return
     if 'portfolio' in case:
         spec = portfolio.MODELS[case['portfolio']]
         compare(spec, case['text'], ctx, 'enum')
@@ -225,7 +243,7 @@ def enum_merge_keys(shard, nshards):
                                 '{? {%s: %s} : 1, %s: %s}' % (k1, v1, k2, v2)]
                         for d in docs:
                             if i % nshards == shard:
-                                yield {'portfolio': name, 'text': d}
+                                yield {'portfolio': name, 'text': d, 'expect': 'reject'}
                             i += 1
 
 
